@@ -117,4 +117,20 @@ PROPS = {
         "assumptions": ["the C08 mark model for the self-match of a multi-cause node"],
         "parts": [rapid("multi-tree", "TestProp", 6000, 100000), plain("join-nils", "TestJoinNils")],
     },
+    "C14": {
+        "pkg": "c14",
+        "level": "exploration",
+        "level_text": "Generated differential testing with shrinking: on every generated tree (library, stdlib, pkg/errors, OS/net and user types mixed) the "
+                      "library's Is/As/Unwrap/Cause/UnwrapAll are compared with the standard library's errors.Is/As/Unwrap and pkg/errors.Cause, over a reference pool "
+                      "and 19 As target types (pointer, value, non-comparable value, interface).",
+        "level_note": "The standard library cannot traverse Cause-only wrappers, so the direct comparison of As and of the Unwrap chain is made on trees without them; "
+                      "on the others the reference is the stdlib As algorithm extended with Cause() (the extension the library documents). A panic of the standard "
+                      "library itself (non-comparable values) is not held against the library here (C08 covers it).",
+        "technique": "property-based testing (rapid): differential oracle against errors.Is/As/Unwrap (stdlib) and pkg/errors.Cause",
+        "rule": "rapid-generated trees (boosted: Cause-only and Unwrap-only user wrappers, pkg/errors wrappers, OS/net wrappers, sentinels) plus an independent tree; "
+                "references = all nodes of both trees and the sentinel pool. Non-trivial = at least 3 visible layers and at least one reference for which the "
+                "standard errors.Is holds. Distinct = hash of the case JSON.",
+        "assumptions": ["Go 1.23 standard library semantics of errors.Is/As/Unwrap"],
+        "parts": [rapid("dropin", "TestProp", 24000, 480000)],
+    },
 }
